@@ -12,13 +12,17 @@
                          by the epilogues)
     C17_ordered          `start ≤ end` for every recorded span and every error span, when the
                          character-data tokens come in source order
-  Not proved here (see bin/props/C17.json): spans fall on char boundaries and slice to the spelling
-  (tokenizer), decoding the slice gives the value at tree level (character-level part: C02_content).
+    C17_boundaries       every end point is a char boundary of the source, when the token spans are
+                         slices of the source
+  Not proved here (see bin/props/C17.json): that the token spans slice to the spelling the property
+  names (tokenizer), decoding the slice gives the value at tree level (character-level part:
+  C02_content).
 -/
 import XotModel.Lemmas.ParseSpans
 import XotModel.Lemmas.ParseSpanKeys
 import XotModel.Lemmas.ParseSpanOrder
 import XotModel.Lemmas.ParseSpanTotal
+import XotModel.Lemmas.ParseSpanEnds
 import XotModel.Lemmas.ParseWitnessData
 import XotModel.Lemmas.TokenShapeB
 
@@ -63,6 +67,32 @@ theorem C17_ordered {m : Mode} {len : Nat} {env : Env} {ts : List Token} {lexErr
   · intro e env' he; rw [he] at h; exact h
 
 example : TextOrdered goodDoc := textOrdered_of_B _ (by decide +kernel)
+
+/-- C17_boundaries: when every token span is a slice of the source text `src` (its text occurs in
+    `src` at its byte offset — what a tokenizer returns), every recorded span and every error span
+    starts and ends on a CHAR BOUNDARY of `src` (in particular inside `[0, len]`), including the
+    positions `parse_content` computes inside a slice. -/
+theorem C17_boundaries {m : Mode} {src : Str} {env : Env} {ts : List Token} {lexErr : Option Nat}
+    (hts : ∀ t ∈ ts, t.All (StrSpan.SliceOf src)) (hlex : ∀ p, lexErr = some p → IsBoundary src p) :
+    (∀ p, build m (strLen src) env ts lexErr = .ok p →
+      ∀ e ∈ p.spans, IsBoundary src e.2.start ∧ IsBoundary src e.2.stop) ∧
+    (∀ e env', build m (strLen src) env ts lexErr = .err e env' →
+      IsBoundary src e.span.start ∧ IsBoundary src e.span.stop) := by
+  have h := build_boundaries m src env ts lexErr hts hlex
+  constructor
+  · intro p hp; rw [hp] at h; exact h
+  · intro e env' he; rw [he] at h; exact h
+
+/-- Non-vacuity: the tokens of `<a></b>` are slices of that text. -/
+example : ∀ t ∈ mismatch, t.All (StrSpan.SliceOf ['<', 'a', '>', '<', '/', 'b', '>']) := by
+  intro t ht
+  simp only [mismatch, List.mem_cons, List.not_mem_nil, or_false] at ht
+  rcases ht with rfl | rfl | rfl
+  · exact ⟨⟨[], ['<', 'a', '>', '<', '/', 'b', '>'], rfl, rfl⟩, ⟨['<'], ['>', '<', '/', 'b', '>'], rfl, rfl⟩,
+      ⟨[], ['>', '<', '/', 'b', '>'], rfl, rfl⟩⟩
+  · exact ⟨['<', 'a'], ['<', '/', 'b', '>'], rfl, rfl⟩
+  · exact ⟨⟨[], ['<', 'a', '>', '<', '/', 'b', '>'], rfl, rfl⟩, ⟨['<', 'a', '>', '<', '/'], ['>'], rfl, rfl⟩,
+      ⟨['<', 'a', '>'], [], rfl, rfl⟩⟩
 
 /-! ### Which span is recorded under which key -/
 
